@@ -426,3 +426,13 @@ def normalised_statements(func_node: ast.AST) -> List[ast.stmt]:
         fn = ast.fix_missing_locations(Sub().visit(fn))
     fn.body = emit(fn.body)
     return list(stmts_of(fn.body))
+
+
+def statement_texts(fi) -> List[str]:
+    """Unparsed statements of a function: as written, plus their normalised spelling (see normalised_statements)."""
+    raw = [unparse(s) for s in stmts_of(fi.body)]
+    try:
+        norm = [unparse(s) for s in normalised_statements(fi.node)]
+    except Exception:
+        norm = []
+    return raw + [t for t in norm if t not in raw]
